@@ -11,6 +11,7 @@ import (
 	"github.com/feichai0017/NoKV/kv"
 	"github.com/feichai0017/NoKV/metrics"
 	"github.com/feichai0017/NoKV/utils"
+	"github.com/feichai0017/NoKV/utils/verifhook"
 	"github.com/pkg/errors"
 )
 
@@ -143,6 +144,7 @@ func (o *oracle) beginRead(txn *Txn) uint64 {
 	// Choose the read timestamp and register the reader in one critical
 	// section with newCommitTs, so that cleanupCommittedTransactions never
 	// prunes commits above a reader that is about to register.
+	verifhook.Yield("oracle.readTs.lock")
 	o.Lock()
 	readTs := o.nextTxnTs.Load() - 1
 	if last := o.txnMark.LastIndex(); last < readTs {
@@ -158,6 +160,7 @@ func (o *oracle) beginRead(txn *Txn) uint64 {
 	// timestamp and are going through the write to value log and LSM tree
 	// process. Not waiting here could mean that some txns which have been
 	// committed would not be read.
+	verifhook.Yield("oracle.readTs.wait")
 	utils.Check(o.txnMark.WaitForMark(context.Background(), readTs))
 	return readTs
 }
@@ -197,6 +200,7 @@ func (o *oracle) hasConflict(txn *Txn) bool {
 }
 
 func (o *oracle) newCommitTs(txn *Txn) (uint64, bool) {
+	verifhook.Yield("oracle.newCommitTs.lock")
 	o.Lock()
 	defer o.Unlock()
 
@@ -288,6 +292,7 @@ func (o *oracle) cleanupCommittedTransactions() { // Must be called under o.Lock
 }
 
 func (o *oracle) doneCommit(cts uint64) {
+	verifhook.Yield("oracle.doneCommit")
 	o.txnMark.Done(cts)
 }
 
